@@ -90,6 +90,13 @@ class WebSocketCodec(BaseComponent):
             return msgs
         data = self._buffer + data
         while data:
+            # if the frame header is not complete yet, retry after next read
+            header_length = 2
+            if len(data) >= 2:
+                header_length += {126: 2, 127: 8}.get(data[1] & 0x7F, 0) + (4 if data[1] & 0x80 else 0)
+            if len(data) < header_length:
+                self._buffer = data
+                break
             # extract final flag, opcode and masking
             final = bool(data[0] & 0x80 != 0)
             opcode = data[0] & 0xF
